@@ -1,5 +1,6 @@
 /- Line-protocol driver for C01 (object syntax): spec reader, lexer + stack-parser model. -/
 import PdfVerif.Model.StackParser
+import PdfVerif.Model.ObjParser
 import PdfVerif.Spec.Syntax
 
 open PdfVerif PdfVerif.Lexer
@@ -23,9 +24,7 @@ def answer (line : String) : String :=
   | ["model.getobj", b, objid, h] =>
     match b.toNat?, objid.toInt?, bytesOfHex h with
     | some b, some objid, some data =>
-      match run b data with
-      | some ts => (StackParser.getobjToks objid (ts.map (·.2))).show
-      | none => "fuel-exhausted"
+      (ObjParser.getobjBytes b objid data).show
     | _, _, _ => "bad-op"
   | ["model.lex", b, h] =>
     match b.toNat?, bytesOfHex h with
